@@ -16,7 +16,7 @@ from ..protocol import HandlerProtocol, _is_copy_of
 from ..pyfront import ClassInfo, Program, body_without_docstring, dotted, param_names, self_attr
 from ..guards import atoms, path_conditions
 from ..normalize import canon, flat
-from ..resolve import split_atom
+from ..resolve import Resolver, split_atom
 from ..selftest import Edit
 from ..writers import all_field_writes, taint_from_params
 
@@ -70,12 +70,18 @@ def check_extraction_copies(prog: Program, rep: Report):
     n_units = 0
     for ref in reach:
         ps = param_names(ref.fn)
+        RF = Resolver(ref.fn)
         for call in [n for n in ast.walk(ref.fn) if isinstance(n, ast.Call) and isinstance(n.func, ast.Name)
                      and n.func.id == "Unit"]:
             n_units += 1
             args = _unit_ctor_args(call, unit_params)
             for fld in ("position", "velocity", "time_stamp"):
                 a = args.get(fld)
+                if isinstance(a, ast.Name) and a.id not in ps:
+                    # a local that holds the copy: its (reaching) definition at this construction
+                    d = RF._reaching(a.id, RF.paths.get(id(a)))
+                    if isinstance(d, ast.Call):
+                        a = d
                 loc = Loc(ref.file, call.lineno, ref.qual)
                 ok = False
                 why = f"Unit.{fld} is `{norm(a) if a is not None else 'missing'}`"
